@@ -14,11 +14,16 @@ RULE = ("A: TLC grid - every self-delimiting unit kind (space packet header, PUS
         "unit alone (complete PDUs may instead be refused with a documented error); and streams of back-to-back units (all "
         "18 x 18 ordered pairs, one stream of all 18 kinds, PDUs followed by PDUs) split purely by the reported lengths, with "
         "SplitOk checked on the specification's decoders. B: recorded calls validated by TLC - random units with random "
-        "suffixes (incl. further valid packets) and random streams of 2..8 random units. distinct = distinct (op, args).")
+        "suffixes (incl. further valid packets) and random streams of 2..8 random units; foreign units (spec-encoded filestore "
+        "TLVs / Finished / Metadata PDUs with names that are not UTF-8; library-packed units of every kind with 1..4 non-length "
+        "octets replaced and the checksum repaired) x suffixes: if accepted, the reported length is the declared one and the "
+        "object is the one decoded from the unit alone. distinct = distinct (op, args).")
 
 
 def classify(e):
     a, op = e["a"], e["op"]
+    if op == "sfx.foreign":
+        return f"k={a['u']['k']},sfx={int(bool(a['sfx']))}"
     if op == "stream.split":
         return "kinds=" + "+".join(sorted({u["k"] for u in a["units"]}))[:60]
     from .cfdp_common import classify as cc
@@ -85,8 +90,38 @@ def rnd_sfx(rng):
     return [0xFF] * rng.randrange(1, 9)
 
 
+# 0-based positions of the octets that determine a unit's length (left alone when foreign contents are generated)
+LENPOS = {"sph": (), "tc": (4, 5), "tm": (4, 5), "srv17": (4, 5), "srv1": (4, 5), "cds": (), "reqid": (), "cfdphdr": (3,),
+          "lv": (0,), "tlv": (1,), "ctlv": (1,), "uslphdr": (6,), "pdu": (1, 2, 3)}
+
+
+def foreign(rng, u):
+    """The unit packed by the library with 1..4 of its octets replaced - never a length-determining one - and the checksum
+    trailer (PUS packets, PDUs whose CRC flag is set afterwards) made valid again: what another implementation, or a sender
+    with other conventions (reserved codes, names in another character set), puts into the same frame."""
+    import binascii
+    from ..ops_fault import _unit
+    raw = bytearray(_unit(u)[0])
+    k = u["k"]
+    trailer = 2 if k in ("tc", "tm", "srv17", "srv1") else 0
+    pos = [i for i in range(len(raw) - trailer) if i not in LENPOS[k]]
+    if not pos:
+        return None
+    for _ in range(rng.choice([1, 1, 2, 4])):
+        i = rng.choice(pos)
+        raw[i] = rng.choice([0, 255, raw[i] ^ (1 << rng.randrange(8)), rng.randrange(256), 0xE9, 0xC3])
+    if trailer or (k == "pdu" and raw[0] & 2 and len(raw) >= 6):
+        raw[-2:] = binascii.crc_hqx(bytes(raw[:-2]), 0xFFFF).to_bytes(2, "big")
+    return list(raw)
+
+
 def events(ctx):
     rng = ctx.rng
+    for _ in range(ctx.q(12000, 300000)):
+        u = rnd_unit(rng)
+        o = foreign(rng, u)
+        if o is not None:
+            yield record("sfx.foreign", {"u": u, "octets": o, "sfx": rng.choice([[], rnd_sfx(rng), rnd_sfx(rng)])})
     for _ in range(ctx.q(25000, 400000)):
         u = rnd_unit(rng)
         k, p, s = u["k"], u["p"], rnd_sfx(rng)
